@@ -120,7 +120,12 @@ class JSONPointer:
         if not RE_INDEX.fullmatch(s):
             return s
 
-        index = int(s)
+        try:
+            index = int(s)
+        except ValueError:
+            # More digits than `int()` will convert
+            # (`sys.get_int_max_str_digits()`).
+            raise JSONPointerIndexError("index out of range") from None
         if index < self.min_int_index or index > self.max_int_index:
             raise JSONPointerIndexError("index out of range")
         return index
